@@ -548,6 +548,36 @@ fn inject_two(stmts: &[H], cls: CClass, cls2: Option<CClass>, r: &mut Rng, every
 // ------------------------------------------------------------------------------------------------
 // workloads
 
+/// the statement written with a lot of optional layout: long runs of spaces / tabs at every gap that admits them and line
+/// breaks followed by deep indentation inside brackets, after operators and round the parts of a conditional (a source text
+/// many times longer than the program it denotes; the formatter's result may depend on the tree and the width only)
+fn spacious(stmt: &H, r: &mut Rng) -> String {
+    let mut rr = r.clone();
+    r.next();
+    let dense = rr.chance(1, 2);
+    let mut deco = |g: Gap| -> Option<String> {
+        if !dense && !rr.chance(2, 3) {
+            return None;
+        }
+        let canon = g.canonical();
+        let ws_ok = !matches!(g, Gap::AfterIndexOpen | Gap::BeforeIndexClose | Gap::MaybeParen | Gap::ListTrailingComma | Gap::RecTrailingComma | Gap::CallTrailingComma | Gap::DoAfterOpen | Gap::DoBeforeClose | Gap::DoBeforeStmt | Gap::DoBeforeReturn | Gap::DoStmtEol | Gap::ListLastItemEol | Gap::RecLastItemEol);
+        let nl_ok = matches!(g, Gap::AfterSymOp | Gap::AfterOpenParen | Gap::BeforeCloseParen | Gap::AfterListOpen | Gap::AfterListComma | Gap::BeforeListClose
+            | Gap::AfterRecOpen | Gap::AfterRecComma | Gap::BeforeRecClose | Gap::AfterRecColon | Gap::AfterArrow | Gap::AfterCallOpen | Gap::AfterCallComma | Gap::BeforeCallClose
+            | Gap::BeforeThen | Gap::AfterThen | Gap::BeforeElse | Gap::AfterElse);
+        if nl_ok && rr.chance(1, 2) {
+            return Some(format!("\n{}", " ".repeat([2usize, 8, 24, 60, 120][rr.below(5)])));
+        }
+        if ws_ok {
+            let pad = if rr.chance(1, 4) { "\t".repeat(1 + rr.below(6)) } else { " ".repeat([1usize, 3, 10, 40, 90][rr.below(5)]) };
+            return Some(format!("{}{}", canon, pad));
+        }
+        None
+    };
+    let mut p = Printer::new(Mode::Min);
+    p.deco = Some(&mut deco);
+    p.print_stmt(stmt)
+}
+
 fn gen_program(r: &mut Rng, n_stmts: usize, depth: usize) -> Vec<H> {
     let mut g = Gen::new(r, GenCfg { inputs: true, odd_strings: true, ..GenCfg::default() });
     g.program(n_stmts, depth, &NAMES).0
@@ -748,6 +778,19 @@ pub fn run(which: &str, ctx: &Ctx, sink: &mut Sink) {
             for s in &stmts {
                 let src = print_min(s);
                 check_stmt(&v, sink, &src, w, None, "random");
+                // the same statement as a source text full of optional layout
+                if i % 2 == 0 {
+                    let sp = spacious(s, &mut r);
+                    if sp != src && parse1(&sp).map(|t| t == *s).unwrap_or(false) {
+                        sink.count("spacious_sources", 1);
+                        check_stmt(&v, sink, &sp, w, None, "spacious");
+                        if w != Some(20) {
+                            check_stmt(&v, sink, &sp, Some(20), None, "spacious");
+                        }
+                    } else if sp != src {
+                        sink.count("spacious_source_not_same_tree", 1);
+                    }
+                }
             }
             // program level: blank lines + P-class comments (which the formatter keeps)
             let cls = [CClass::P1OwnLineBeforeStmt, CClass::P2StmtEol, CClass::P4ListAfterOpen, CClass::P5ListAfterCommaOwnLine, CClass::P7ListLastItemEol,
